@@ -67,6 +67,7 @@ def read_doc(path_or_text, is_path):
 
 
 SHARED_META = {}
+SHARED_FILE_META = {}
 
 
 def consuming(deser):
@@ -176,7 +177,10 @@ def one_case(ctx, out, cfg, spec, tree, cls, km_name, vm_name, compression, use_
         lkw["mapper"] = {"std": m.deser, "consuming": consuming(m.deser), "short": short_deser(m)}[style]
     elif style == "consuming" and typed and not needs_mapper:
         lkw["mapper"] = consuming(lambda parent, data: data["str"])
-    fm = {}
+    # every other load hands over ONE caller-owned `file_meta` dict that still holds the header of an earlier file (with other
+    # maps): what load() does must depend on the file alone
+    reuse_fm = next(counter) % 2 == 0
+    fm = SHARED_FILE_META if reuse_fm else {}
     try:
         if use_path:
             t2 = load_cls.load(path, file_meta=fm, **lkw)
@@ -196,7 +200,7 @@ def one_case(ctx, out, cfg, spec, tree, cls, km_name, vm_name, compression, use_
             out.fail(case, f"clone groups differ after the round trip: {S.clone_groups(t2)} != {S.clone_groups(tree)}")
         if type(t2) is not load_cls:
             out.fail(case, f"loaded tree is a {type(t2).__name__}, loading class {load_cls.__name__}")
-        if fm != doc["meta"] or any(fm.get(k) != v for k, v in meta.items()):
+        if (not reuse_fm and fm != doc["meta"]) or any(fm.get(k) != v for k, v in doc["meta"].items()) or any(fm.get(k) != v for k, v in meta.items()):
             out.fail(case, f"file_meta {fm} != stored header {doc['meta']}")
         try:
             t2._self_check()
@@ -213,6 +217,63 @@ def one_case(ctx, out, cfg, spec, tree, cls, km_name, vm_name, compression, use_
             out.disagree(case, f"model load differs: {ml.get('err') or S.model_shape(ml['ok'])} vs {S.tree_shape(t2, pool)}")
     elif "ok" in ml:
         out.disagree(case, f"model loads the document, implementation raised {r_load}")
+
+
+def dictwrapper_campaign(ctx, out, n):
+    """trees of `DictWrapper` nodes saved and loaded with the library's own mappers (`DictWrapper.serialize_mapper` /
+    `deserialize_mapper`), with key / value maps that mention the wrapped dicts' own keys: the loaded dicts equal the saved ones,
+    clone groups (one wrapper under several parents) survive, and the SOURCE tree's dicts are what they were before"""
+    import copy
+
+    from nutree.common import DictWrapper
+
+    rng = ctx.rng
+    for k in range(n):
+        # plain trees only: `DictWrapper.serialize_mapper` returns the wrapped dict alone, i.e. it drops the `kind` (and an explicit
+        # `data_id`) entry that save() handed to it, so with a TypedTree it is not a pair of inverse mappers in the sense of the
+        # property (observed, DESIGN.md section 7)
+        t = Tree("dw")
+        typed = isinstance(t, TypedTree)
+        wrappers = [DictWrapper({"title": f"n{i}", "type": rng.choice(["a", "b", "c"]), "n": i, "flag": bool(i % 2)}) for i in range(rng.randrange(2, 7))]
+        nodes = []
+        for i, w in enumerate(wrappers):
+            parent = rng.choice([t] + nodes) if nodes else t
+            nodes.append(parent.add(w, **({"kind": rng.choice(["x", "y"])} if typed else {})))
+        for _ in range(rng.randrange(0, 3)):      # clones: the same wrapper below another parent
+            w, parent = rng.choice(wrappers), rng.choice(nodes)
+            try:
+                nodes.append(parent.add(w, **({"kind": "y"} if typed else {})))
+            except Exception:  # noqa  (sibling with the same data_id)
+                pass
+
+        def shape(tree):
+            def w(n):
+                return [copy.deepcopy(n.data._dict), getattr(n, "kind", None), [w(c) for c in n.children]]
+            return [w(c) for c in tree.children]
+
+        before = shape(t)
+        groups = S.clone_groups(t)
+        km = [True, False, {"title": "t", "type": "y", "n": "n", "flag": "f", "kind": "k"}][k % 3]
+        vm = [True, False, {"type": ["a", "b", "c"], "flag": [False, True]}][(k // 3) % 3]
+        case = dict(cfg="dictwrapper", typed=typed, tree=before, key_map=repr(km), value_map=repr(vm))
+        out.count(("dictwrapper", k, repr(before)), len(nodes) >= 3)
+        out.dist["dictwrapper"] += 1
+        try:
+            fp = io.StringIO()
+            t.save(fp, mapper=DictWrapper.serialize_mapper, key_map=km, value_map=(dict(vm) if isinstance(vm, dict) else vm))
+            if shape(t) != before:
+                out.fail(case, f"save() with DictWrapper.serialize_mapper changed the data of the tree being saved: {shape(t)} (was {before})")
+                continue
+            fp.seek(0)
+            t2 = type(t).load(fp, mapper=DictWrapper.deserialize_mapper)
+            after = shape(t2)
+        except Exception as e:  # noqa
+            out.fail(case, f"save/load with the DictWrapper mappers raised {e!r}")
+            continue
+        if after != before:
+            out.fail(case, f"load(save(tree)) with the DictWrapper mappers differs: {after} != {before}")
+        elif S.clone_groups(t2) != groups:
+            out.fail(case, f"clone groups differ after the DictWrapper round trip: {S.clone_groups(t2)} != {groups}")
 
 
 def run(ctx):
@@ -271,6 +332,7 @@ def run(ctx):
             if len(out.samples) < 4:
                 out.sample(dict(cfg=cfg, tree=spec))
         out.extra["option_combinations"] = len(combos)
+        dictwrapper_campaign(ctx, out, 150 if ctx.thorough else 36)
     finally:
         shutil.rmtree(tmpdir, ignore_errors=True)
     return out
